@@ -64,5 +64,41 @@
 (assert (forall ((c Ctx)) (! (= (fld_Header_Time (ctxHeader c)) (ctxTime c)) :pattern ((ctxHeader c)))))
 
 ; string renderings
-(declare-fun bech32 (Bytes) Str)
 (declare-fun hexstr (Bytes) Str)
+
+; representation assumption (A11): every Pricing decoded from the store was produced by ParsePricing, whose price
+; amounts are non-negative (it builds them with sdk.NewCoin, which panics on negative amounts)
+(assert (forall ((b Bytes) (d Str)) (! (>= (amt (Pricing_Price (dec_Pricing b)) d) 0) :pattern ((amt (Pricing_Price (dec_Pricing b)) d)))))
+(assert (forall ((s Str) (d Str)) (! (>= (amt (Pricing_Price (parsePricing s)) d) 0) :pattern ((amt (Pricing_Price (parsePricing s)) d)))))
+
+; representation invariant WF: stored records agree with the key they are stored under; binding owners are
+; ordinary accounts (they signed the bind message: A3)
+(define-fun ordinary ((a Bytes)) Bool (and (not (= a (modAddr strlit_depositAcc))) (not (= a (modAddr strlit_requestAcc))) (not (= a (modAddr strlit_feeCollector)))))
+(define-fun wfBindAt ((r (Array Key Bytes)) (s Str) (p Bytes)) Bool
+  (=> (bindFound r s p) (and (= (ServiceBinding_ServiceName (bindOf r s p)) s) (= (ServiceBinding_Provider (bindOf r s p)) p)
+        (rng_ServiceBinding (bindOf r s p)) (ordinary (ServiceBinding_Owner (bindOf r s p)))
+        (forall ((d Str)) (! (>= (amt (ServiceBinding_Deposit (bindOf r s p)) d) 0) :pattern ((amt (ServiceBinding_Deposit (bindOf r s p)) d)))))))
+(define-fun WF ((r (Array Key Bytes))) Bool
+  (forall ((s Str) (p Bytes)) (! (wfBindAt r s p) :pattern ((select r (KBind s p))))))
+
+; ---- aggregates: uninterpreted with their point-update law
+(define-fun emptyVal () Bytes (bbuf (bzeros 0) 0 0))
+(define-fun depositAcc () Bytes (modAddr strlit_depositAcc))
+(define-fun requestAcc () Bytes (modAddr strlit_requestAcc))
+; deposit recorded under a key (0 unless the key is a binding key holding a binding)
+(define-fun depAt ((k Key) (v Bytes) (d Str)) Int (ite (and (is-KBind k) (not (= v bnil))) (amt (ServiceBinding_Deposit (dec_ServiceBinding v)) d) 0))
+(declare-fun sumDep ((Array Key Bytes) Str) Int)
+(assert (forall ((r (Array Key Bytes)) (k Key) (v Bytes) (d Str)) (! (= (sumDep (store r k v) d) (+ (- (sumDep r d) (depAt k (select r k) d)) (depAt k v d))) :pattern ((sumDep (store r k v) d)))))
+; I_dep (property C03): the deposit account holds exactly the recorded deposits
+(define-fun depInv ((r (Array Key Bytes)) (b (Array Bytes (Array Str Int)))) Bool
+  (forall ((d Str)) (! (= (select (select b depositAcc) d) (sumDep r d)) :pattern ((select (select b depositAcc) d)) :pattern ((sumDep r d)))))
+
+; the package-level prefixes used directly as scan prefixes
+(assert (= g_types_ServiceDefinitionKey (pbytes PAllDef)))
+(assert (= g_types_ServiceBindingKey (pbytes PAllBind)))
+(assert (= g_types_WithdrawAddrKey (pbytes PAllWAddr)))
+(assert (= g_types_RequestContextKey (pbytes PAllCtx)))
+(assert (= g_types_RequestKey (pbytes PAllReq)))
+(assert (= g_types_ActiveRequestKey (pbytes PAllAct)))
+(assert (= g_types_ResponseKey (pbytes PAllResp)))
+(assert (= g_types_EarnedFeesKey (pbytes PAllEarned)))
